@@ -12,6 +12,17 @@ Z3_MS = int(os.environ.get('PYVC_Z3_MS', '5000'))
 CVC5_MS = int(os.environ.get('PYVC_CVC5_MS', '20000'))
 SEED = int(os.environ.get('VERIF_SEED', '0') or 0)
 
+
+
+def _load_scale():
+    """solver budgets are wall-clock; on an overloaded machine (more runnable processes than cores) a query gets only a
+    share of a core, so the budgets are stretched by load/cores (at most x4) -- verdicts must not flip with load"""
+    try:
+        return max(1.0, min(4.0, os.getloadavg()[0] / (os.cpu_count() or 1)))
+    except OSError:
+        return 1.0
+
+
 _cache = {}
 stats = {'queries': 0, 'cache_hits': 0, 'z3_ms': 0.0, 'cvc5_ms': 0.0,
          'z3_decided': 0, 'cvc5_decided': 0, 'unknown': 0}
@@ -41,11 +52,12 @@ def _cvc5(fs, want_model, fmf=False):
         fh.write(text)
         path = fh.name
     t0 = time.time()
+    sc = _load_scale()
     try:
         out = subprocess.run(
             ['/usr/bin/cvc5', '--strings-exp'] + (['--strings-fmf'] if fmf else []) +
-            ['--tlimit=%d' % (CVC5_MS // 2 if fmf else CVC5_MS), '--seed=%d' % SEED, path],
-            capture_output=True, text=True, timeout=CVC5_MS / 1000.0 + 5)
+            ['--tlimit=%d' % int((CVC5_MS // 2 if fmf else CVC5_MS) * sc), '--seed=%d' % SEED, path],
+            capture_output=True, text=True, timeout=CVC5_MS * sc / 1000.0 + 5)
         res = out.stdout.strip().split('\n', 1)
         verdict = res[0].strip() if res else 'unknown'
         rest = res[1] if len(res) > 1 else ''
@@ -57,6 +69,62 @@ def _cvc5(fs, want_model, fmf=False):
     if verdict not in ('sat', 'unsat'):
         verdict = 'unknown'
     return verdict, rest
+
+
+def _portfolio(fs, want_model):
+    """last resort for a query every single attempt left unknown: the same SMT-LIB text given to several solver
+    processes at once -- cvc5 with other seeds and a larger budget, and the two z3 command-line builds (4.8.12, 5.1) --
+    first definite answer wins.  A verdict of either polarity from any of them is a real verdict (unsat: a proof; sat from
+    cvc5: a counter-model that is replayed natively; sat from a z3 CLI is not used, its model is not read back)."""
+    s = z3.Solver()
+    for f in fs:
+        s.add(f)
+    body = s.to_smt2()
+    t0 = time.time()
+    budget_ms = int(CVC5_MS * 3 * _load_scale())
+    files, procs = [], []
+    try:
+        def launch(cmd, text, kind):
+            fh = tempfile.NamedTemporaryFile('w', suffix='.smt2', delete=False)
+            fh.write(text)
+            fh.close()
+            files.append(fh.name)
+            try:
+                procs.append((kind, subprocess.Popen(cmd + [fh.name], stdout=subprocess.PIPE, stderr=subprocess.DEVNULL, text=True)))
+            except OSError:
+                pass
+        ctext = '(set-logic ALL)\n' + ('(set-option :produce-models true)\n' if want_model else '') + body + ('\n(get-model)\n' if want_model else '')
+        for sd in [x for x in (0, 1, 2, 3) if x != SEED][:3]:
+            launch(['/usr/bin/cvc5', '--strings-exp', '--tlimit=%d' % budget_ms, '--seed=%d' % sd], ctext, 'cvc5')
+        for exe in ('/usr/bin/z3', 'z3-new'):
+            launch([exe, '-T:%d' % (budget_ms // 1000)], body, 'z3cli')
+        deadline = time.time() + budget_ms / 1000.0 + 5
+        pending = list(procs)
+        while pending and time.time() < deadline:
+            for kind, pr in list(pending):
+                if pr.poll() is None:
+                    continue
+                pending.remove((kind, pr))
+                out = (pr.stdout.read() or '').strip().split('\n', 1)
+                v = out[0].strip() if out else ''
+                if v == 'unsat' or (v == 'sat' and kind == 'cvc5'):
+                    return v, (out[1] if len(out) > 1 else ''), ('cvc5' if kind == 'cvc5' else 'z3-cli')
+            time.sleep(0.05)
+        return 'unknown', '', None
+    finally:
+        for _k, pr in procs:
+            if pr.poll() is None:
+                pr.kill()
+            try:
+                pr.wait(timeout=5)
+            except Exception:  # noqa
+                pass
+        for f in files:
+            try:
+                os.unlink(f)
+            except OSError:
+                pass
+        stats['portfolio_ms'] = stats.get('portfolio_ms', 0.0) + (time.time() - t0) * 1000
 
 
 def check(fs, want_model=False, strings_fallback=True, timeout_ms=None):
@@ -74,7 +142,7 @@ def check(fs, want_model=False, strings_fallback=True, timeout_ms=None):
         stats['cache_hits'] += 1
         return _cache[key][0]
     s = z3.Solver()
-    s.set('timeout', timeout_ms or Z3_MS)
+    s.set('timeout', int((timeout_ms or Z3_MS) * _load_scale()))
     s.set('random_seed', SEED)
     for f in fs:
         s.add(f)
@@ -104,7 +172,7 @@ def check(fs, want_model=False, strings_fallback=True, timeout_ms=None):
             # seeds and a growing budget (a verdict of either polarity from any attempt is a real verdict)
             for k in (1, 2):
                 s2 = z3.Solver()
-                s2.set('timeout', (timeout_ms or Z3_MS) * (2 * k + 1))
+                s2.set('timeout', int((timeout_ms or Z3_MS) * (2 * k + 1) * _load_scale()))
                 s2.set('random_seed', SEED + 7919 * k)
                 for f in fs:
                     s2.add(f)
@@ -118,6 +186,11 @@ def check(fs, want_model=False, strings_fallback=True, timeout_ms=None):
                 if r2 == z3.sat:
                     out = ('sat', s2.model() if want_model else None, 'z3')
                     break
+        if out[0] == 'unknown' and strings_fallback and _has_strings(fs):
+            v, rest, be = _portfolio(fs, want_model)
+            stats['portfolio'] = stats.get('portfolio', 0) + 1
+            if v != 'unknown':
+                out = (v, rest if v == 'sat' else None, be)
         if out[0] == 'unknown':
             stats['unknown'] += 1
     _cache[key] = (out, fs)
